@@ -474,4 +474,63 @@ Fixpoint crun (s : cstate) (ops : list cop) : option cstate :=
   | o :: r => match cstep s o with Some s' => crun s' r | None => None end
   end.
 
+
+(** * 8. From the configuration to the chain: loader, Complete, validation, NewService *)
+
+(* one `[[httpPlugins]]` entry as the operator wrote it: name (optional, arbitrary, not a key) and ops.
+   The identity of a configured plugin is its POSITION in the list (1-based), never its name. *)
+Definition cfg_entry : Type := string * list string.
+
+(* every place of the loader / Complete / validation / server start that touches ServerConfig.HTTPPlugins,
+   as reported by translator unit T6 *)
+Inductive cfg_use :=
+| CfgRegisterLoop (file func : string)
+    (* for _, p := range cfg.HTTPPlugins { X.Register(plugin.NewHTTPPluginOptions(p)) }   (log calls ignored) *)
+| CfgReadLoop (file func : string)
+    (* for _, p := range c.HTTPPlugins { ... } whose body assigns nothing but local error accumulators *)
+| CfgWrite (file func what : string)
+    (* an assignment to the field (or to an element of it) *)
+| CfgOther (file func what : string).
+    (* any other mention: passed to a function, sliced, measured, ... *)
+
+Definition cfg_use_eqb_site (u : cfg_use) (f fn : string) : bool :=
+  match u with
+  | CfgRegisterLoop a b | CfgReadLoop a b | CfgWrite a b _ | CfgOther a b _ => String.eqb a f && String.eqb b fn
+  end.
+
+(* writes that build the list from another representation of the same configuration (legacy INI) *)
+Definition cfg_allowed_writes : list (string * string) :=
+  [("pkg/config/legacy/conversion.go", "Convert_ServerCommonConf_To_v1");
+   ("pkg/config/legacy/server.go", "UnmarshalServerConfFromIni")]%string.
+
+Definition cfg_use_transparent (u : cfg_use) : bool :=
+  match u with
+  | CfgRegisterLoop _ _ | CfgReadLoop _ _ => true
+  | CfgWrite f fn _ | CfgOther f fn _ =>
+      existsb (fun a : string * string => String.eqb (fst a) f && String.eqb (snd a) fn) cfg_allowed_writes
+  end.
+
+Fixpoint number_from (k : Z) (es : list cfg_entry) : list plugin :=
+  match es with
+  | [] => []
+  | e :: r => (k, snd e) :: number_from (k + 1) r
+  end.
+
+(* the plugins NewService registers for a configuration, in order: defined only when nothing between
+   the decoded file and the registration loop rewrites the list (anything else: not modelled) *)
+Definition cfg_plugins (uses : list cfg_use) (es : list cfg_entry) : option (list plugin) :=
+  if forallb cfg_use_transparent uses &&
+     (length (filter (fun u => match u with CfgRegisterLoop _ _ => true | _ => false end) uses) =? 1)%nat
+  then Some (number_from 1 es)
+  else None.
+
+(* the whole path: configuration -> registered plugins -> Manager -> method of the operation *)
+Definition cfg_sem (uses : list cfg_use) (ops : list (string * string)) (fields : list string)
+           (reg : list reg_entry) (ms : list method_ir) (o : op) (es : list cfg_entry)
+           (script : Z -> hret) (c : content) : result * list consult :=
+  match cfg_plugins uses es with
+  | Some ps => ir_sem ops fields reg ms o ps script c
+  | None => (RStuck, [])
+  end.
+
 End PC.
